@@ -22,6 +22,7 @@ from rogw.tranp.i18n.i18n import I18n
 from rogw.tranp.implements.cpp.semantics.cvars import CVars
 from rogw.tranp.lang.annotation import injectable
 from rogw.tranp.lang.defer import Defer
+from rogw.tranp.lang.string import is_quoted_literal
 from rogw.tranp.lang.module import to_fullyname
 from rogw.tranp.semantics.procedure import Procedure
 from rogw.tranp.semantics.reflection.base import IReflection
@@ -1457,7 +1458,8 @@ class Py2Cpp(ITranspiler):
 		primary = left
 		primary_raw = left_raw
 		# XXX 文字列リテラル同士の`+`はC++ではポインター同士の加算になり不正なため、左辺をstd::stringに変換
-		if operators[0] == '+' and node.elements[0].is_a(defs.String) and node.elements[2].is_a(defs.String):
+		# XXX リテラル化された式(Enum.X.name等)も対象のため、出力結果で判定
+		if operators[0] == '+' and left_raw.impl(refs.Object).type_is(str) and is_quoted_literal(primary, '"') and is_quoted_literal(rights[0], '"'):
 			primary = f'{self.to_accessible_name(left_raw)}({primary})'
 
 		for index, right_raw in enumerate(right_raws):
